@@ -33,6 +33,10 @@ def run(P, R, L):
     K.grd17_memtable_output_level(P, R, L)
     R.clause("GRD-19", "a level-0 compaction (size- or seek-triggered) always takes every overlapping level-0 file along")
     K.grd19_level0_inputs_closed(P, R, L)
+    from . import c08
+    R.clause("ERR-1 (compaction inputs)", "an input table that cannot be opened fails the compaction: make_merging_iterator / compact_tables never go on without it (its entries would be dropped together with the file)")
+    c08.err1_subset(P, R, L, ["compaction::manifest::CompactionManifest::make_merging_iterator", "compaction::worker::CompactionWorker::compact_tables",
+                              "compaction::worker::CompactionWorker::coordinate_compaction"])
     K.bundle_readpath(P, R, L)
     K.bundle_retention(P, R, L)
     K.bundle_liveness(P, R, L)
